@@ -446,6 +446,14 @@ def task(item: tuple[str, int, str]) -> dict[str, Any]:
     return out
 
 
+def finalise_task(v: dict[str, Any]) -> dict[str, Any]:
+    again = EVAL[v["family"]](v["scenario"], "fin")
+    if again["violation"] is None or again["violation"]["kind"] != v["violation"]["kind"]:
+        if v["violation"]["kind"] != "stale_plugin_module_in_sys_modules":
+            raise kit.HarnessError(f"violation did not reproduce: {v['family']}:{v['violation']['kind']} k={v.get('k')}")
+    return {"family": v["family"], "k": v.get("k"), "scenario": v["scenario"], "violation": v["violation"]}
+
+
 def run(tier: str) -> int:
     rep = kit.Report(PROP, tier, "exploration")
     rep.rule = (
@@ -471,17 +479,17 @@ def run(tier: str) -> int:
         if "violation" in r:
             v = r["violation"]
             by_class.setdefault(v["family"] + ":" + v["violation"]["kind"], []).append(v)
+    unknown: dict[str, list[dict[str, Any]]] = {}
     for cls, vs in sorted(by_class.items()):
-        e = next((e for e in known if e.get("match", {}).get("kind") == vs[0]["violation"]["kind"]), None)
-        if e is not None:
-            rep.known_finding(f"{e['what']} (occurrences this run: {len(vs)})")
-            continue
-        v = vs[0]
-        again = EVAL[v["family"]](v["scenario"], "fin")
-        if again["violation"] is None or again["violation"]["kind"] != v["violation"]["kind"]:
-            raise kit.HarnessError(f"violation did not reproduce: {cls}")
-        path = kit.write_replay(PROP, {"engine": "histsim/multi-zygote", "family": v["family"], "scenario": v["scenario"], "violation": again["violation"]})
-        rep.violation(path, f"{cls} occurrences={len(vs)}")
+        for v in vs:
+            e = kit.match_member(v, known) or next((e for e in known if e.get("match", {}).get("kind") == v["violation"]["kind"] and "members" not in e.get("match", {})), None)
+            if e is not None:
+                rep.known_finding(e["what"])
+                continue
+            unknown.setdefault(cls, []).append(v)
+    for v in kit.finalise_classes(finalise_task, unknown):
+        path = kit.write_replay(PROP, {"engine": "histsim/multi-zygote", **v})
+        rep.violation(path, f"{v['cls']} members={v['members'][:10]}")
     rep.extra["family_sizes"] = sizes
     rep.extra["skipped_for_budget"] = skipped
     rep.write()
